@@ -514,7 +514,7 @@ Lemma expand_from_app a : forall k b,
 Proof.
   induction a as [|st a IH]; intros k b; cbn [app expand_from length].
   - replace (k + N.of_nat 0) with k by lia. reflexivity.
-  - rewrite IH, <- app_assoc. do 2 f_equal. lia.
+  - rewrite IH, <- app_assoc. replace (k + 1 + N.of_nat (length a)) with (k + N.of_nat (S (length a))) by lia. reflexivity.
 Qed.
 
 Definition names_ops (names : list (N * N)) : list mop :=
